@@ -33,6 +33,11 @@ func c06SchedScenarios(thorough bool) []c06Sched {
 			HoldBudget: 1, HoldDepth: 3}, before: before, change: change},
 		{sc: &Scenario{Name: "R5 change and its rollback on T1, connected; one crash", Cfg: one, Init: connectAll("T1"), Prefix: prefix, Requests: reqs, CrashBudget: 1}, before: before, change: change},
 	}
+	// a retried (duplicate) rollback request: the second one names a change that is no longer the latest and is refused;
+	// the first one must still restore the configuration and the device
+	out = append(out, c06Sched{sc: &Scenario{Name: "R6 change applied (before the exploration starts), then its rollback requested twice, connected", Cfg: one, Init: connectAll("T1"),
+		Prefix:   append(append([]func(w *World) *Call{}, prefix...), func(w *World) *Call { return w.GoSet(bgCtx(), chg.Set) }),
+		Requests: []SetReqOrCall{rollbackReq("rollback(2)", 2), rollbackReq("rollback(2) again", 2)}}, before: before, change: change})
 	if thorough {
 		out = append(out,
 			c06Sched{sc: &Scenario{Name: "R1c change and its rollback on T1 (offline; connects at any time); one crash", Cfg: one, Prefix: prefix, Requests: reqs,
